@@ -95,6 +95,24 @@ class Ctx:
             cmds.append("V")
         return "CTX\t" + self.scope_str() + "\t" + "\t".join(cmds)
 
+    def call_line(self, kind: str = "func", style: str = "pos", prov: str | None = None) -> str:
+        """the same context presented through an entry point"""
+        if prov is None:
+            prov = "obj" if self.scope else "-"
+        items = []
+        for p in self.params:
+            if p.is_tuple:
+                items.append(f"P|{p.name}|T|{';'.join(s.spec() for s in p.slots)}|U:{';'.join(s.val() for s in p.slots)}")
+            else:
+                items.append(f"P|{p.name}|S|{p.slots[0].spec()}|{p.slots[0].val()}")
+        if self.ret is not None and kind in ("func", "method"):
+            p = self.ret
+            if p.is_tuple:
+                items.append(f"R|T|{';'.join(s.spec() for s in p.slots)}|U:{';'.join(s.val() for s in p.slots)}")
+            else:
+                items.append(f"R|S|{p.slots[0].spec()}|{p.slots[0].val()}")
+        return "\t".join(["CALL", f"{kind}:{style}", prov, self.scope_str(), *items])
+
     def entries(self) -> list[oracle.Ent] | None:
         """flattened annotated non-None tensors in source order; None if a value is not checkable (X, or None under a non-optional hint)"""
         out = []
